@@ -77,7 +77,7 @@ def generate(rng, tier, shard, nshards):
                 kw = rng.choice([{'markersize': 13}, {'markeredgecolor': 'cyan'}, {'marker': 's'}, {'alpha': 0.25}])
             else:
                 kw = rng.choice([{'edgecolor': 'cyan'}, {'linewidth': 7.5}, {'fill': True, 'facecolor': 'yellow'}, {'alpha': 0.25}, {'linestyle': '-.'}])
-        yield {'lane': cls, 'region': reg, 'origin': rng.choice([[0, 0], [0, 0], [rng.uniform(-50, 50), rng.uniform(-50, 50)], [10, -3], [0.5, 0.5], [-0.25, 7.75]]), 'kw': kw,
+        yield {'lane': cls, 'region': reg, 'origin': rng.choice([[0, 0], [0, 0], [rng.uniform(-50, 50), rng.uniform(-50, 50)], [10, -3], [0.5, 0.5], [-0.25, 7.75], [100, 64], [7, 3], [100, 64]]), 'kw': kw,
                'rs': rng.randrange(2 ** 31)}
 
 
@@ -127,7 +127,25 @@ def run_case(case, obs):
     ox, oy = case['origin']
     kw = dict(case['kw'])
     fp0 = S.fingerprint(reg)
-    art = reg.as_artist(origin=(ox, oy), **kw)
+    origin = (ox, oy)
+    okind = case['rs'] % 7
+    if float(ox).is_integer() and float(oy).is_integer():
+        # "array_like" origins: lists, tuples and NumPy arrays/scalars of any integer type (the plot origin of an image cutout)
+        ix, iy = int(ox), int(oy)
+        if okind == 1:
+            origin = [ix, iy]
+        elif okind == 2:
+            origin = np.array([ix, iy], dtype=np.int32)
+        elif okind == 3 and ix >= 0 and iy >= 0:
+            origin = np.array([ix, iy], dtype=np.uint16)
+        elif okind == 4 and ix >= 0 and iy >= 0:
+            origin = (np.uint8(ix % 200), np.uint8(iy % 200))
+            ox, oy = ix % 200, iy % 200
+        elif okind == 5:
+            origin = np.array([ix, iy], dtype=float)
+        if okind in (1, 2, 3, 4, 5):
+            obs.count('origin-kind:' + type(origin).__name__ + ':' + str(getattr(origin, 'dtype', type(origin[0]).__name__)))
+    art = reg.as_artist(origin=origin, **kw)
     obs.check(S.fingerprint(reg) == fp0, 'as_artist-mutates-region', f'{cls}.as_artist changed the region', 'region-unchanged')
     if cls in PATCHY:
         if not obs.check(isinstance(art, mp.Patch), 'artist-type', f'{cls}.as_artist returned {type(art).__name__}', 'artist-type'):
